@@ -10,7 +10,7 @@ FUNCS_NAMED = [("fn", "1"), ("fn", "10"), ("fn1", "0")]   # fn#10 has no local v
 FUNCS_DEFAULT = [("dfn", "1"), ("dfn1", "0"), ("dg", "2")]
 NARGS = 3
 VALKEYS = ["s0", "s1", "num", "none", "k3", "k6", "lst", "dct", "df", "arr", "k3b", "true", "flt", "part",
-           "part2"]
+           "part2", "arr6", "df6"]
 OVERRIDES = [None, None, None, "ovr/shared", "ovr/other"]
 META_KEYS = ["log", "k2"]
 
@@ -24,6 +24,9 @@ def values():
         "k3": "x" * 3000, "k3b": "x" * 3000, "k6": b"y" * 6000, "lst": [1, 2, 3],
         "dct": {"a": 1, "b": [1.5, None]}, "df": pd.DataFrame({"a": [1, 2, 3], "b": ["x", "y", "z"]}),
         "arr": np.arange(5, dtype="int64"),
+        # weak-referenceable and larger than the small cache budgets; the harness keeps holding these objects,
+        # like a caller who still uses the result
+        "arr6": np.arange(800, dtype="int64"), "df6": pd.DataFrame({"a": np.arange(700, dtype="int64")}),
         # partitions are created afresh for every memoize (storing one annotates the object)
         "part": lambda: _partition({"a": 1, "b": "x" * 10, "c": [1.5, None]}),
         "part2": lambda: _partition({"a": 1, "z": "other"}),
